@@ -317,8 +317,12 @@ func parent(a []string) int {
 		"assumptions": e.Assumptions, "wall_s": wall, "violations": len(fresh),
 	}
 	eb, _ := json.MarshalIndent(ev, "", " ")
-	os.MkdirAll(filepath.Join(root, "evidence"), 0755)
-	if err := os.WriteFile(filepath.Join(root, "evidence", id+".json"), append(eb, '\n'), 0644); err != nil {
+	evDir := "evidence"
+	if rp := env("VERIF_REPO", "/repo"); rp != "/repo" {
+		evDir = "evidence-scratch" // a run against a scratch copy (mutation testing) must not overwrite the evidence of /repo
+	}
+	os.MkdirAll(filepath.Join(root, evDir), 0755)
+	if err := os.WriteFile(filepath.Join(root, evDir, id+".json"), append(eb, '\n'), 0644); err != nil {
 		fmt.Fprintln(os.Stderr, "evidence:", err)
 		return 3
 	}
